@@ -6,12 +6,16 @@ import json, re, sys
 root = '/verif'
 rows, n, c = [], 0, 0
 for l in open(root + '/selftest/last_seed_run.txt'):
-    m = re.match(r'(caught|MISSED|ERROR)\s+(\S+)\s*(?:by (.*))?', l.strip())
+    m = re.match(r'(caught|MISSED|ERROR|quiet|FALSE-ALARM)\s+(\S+)\s*(?:by (.*))?', l.strip())
     if not m:
         continue
     st, sid, by = m.group(1), m.group(2), (m.group(3) or '').strip()
-    n += 1
-    c += st == 'caught'
+    if st in ('quiet', 'FALSE-ALARM'):
+        by = ''
+        st = st + ' (retired seed: must not alarm)'
+    else:
+        n += 1
+        c += st == 'caught'
     meta = {}
     try:
         meta = json.load(open('%s/seeded/%s/meta.json' % (root, sid)))
